@@ -18,6 +18,7 @@ mod script;
 mod session;
 mod world_a;
 mod world_b;
+mod world_gate;
 mod world_pty;
 mod world_watch;
 
